@@ -223,7 +223,24 @@ func runC02(c *Ctx) error {
 	}
 	for sIdx := 0; sIdx < nStores; sIdx++ {
 		n := 6 + rng.Intn(30)
-		nodes, ops := genStore(rng, n, uint32(sIdx)+uint32(c.Seed)*7919)
+		var nodes []Node
+		var ops []string
+		if sIdx%3 == 1 {
+			// C02 does not assume distinct merkle roots: let some blocks (also on one chain, at different heights)
+			// carry the merkle root of an earlier block
+			var order []int
+			nodes, order = randomHistory(rng, n, uint32(sIdx)+uint32(c.Seed)*7919, false, false)
+			for i := 1; i < n; i++ {
+				if rng.Intn(5) == 0 {
+					nodes[i].DupMerkle = 1 + rng.Intn(i)
+				}
+			}
+			buildTree(nodes, uint32(sIdx)+uint32(c.Seed)*7919, nil, false)
+			ops = addsOnly(historyOps(nodes, order, nil, false))
+			c.R.Count("store:with duplicate merkle roots", 1)
+		} else {
+			nodes, ops = genStore(rng, n, uint32(sIdx)+uint32(c.Seed)*7919)
+		}
 		name := fmt.Sprintf("store #%d n=%d", sIdx, n)
 		// ingest in two halves so that verdicts are also taken before a later reorganisation
 		cut := len(ops) * 2 / 3
@@ -250,8 +267,15 @@ func runC02(c *Ctx) error {
 					switch rng.Intn(10) {
 					case 0, 1, 2, 3: // a stored block with its own height
 						root, h = r.Merkle, r.Height
-					case 4: // right root, wrong height
+					case 4: // right root, wrong height — or the height of ANOTHER block carrying the same merkle root
 						root, h = r.Merkle, r.Height+int64(rng.Intn(5))-2
+						for i2 := range t.rows {
+							if t.rows[i2].Merkle == r.Merkle && t.rows[i2].Hash != r.Hash {
+								h = t.rows[i2].Height
+								c.R.Count("item:height of another block with the same root", 1)
+								break
+							}
+						}
 					case 5: // unknown root at a stored height
 						root, h = display(nodes[0].Hdr.Hash()), r.Height
 					case 6, 7: // above the tip
